@@ -859,12 +859,14 @@ def explicit(tier, seed):
                 for k in range(6):
                     for f, al in (("alert", [2, 40]), ("alert", [1, 0]),
                                   ("hs", None), ("appdata", None)):
-                        c = {"level": "H", "ver": list(v), "dir": d, "k": k,
-                             "auth": auth, "f": f,
-                             "rs": [None, 64, 200][k % 3] if k < 3 else 64}
-                        if al:
-                            c["alert"] = al
-                        yield c
+                        # one message per record (the splice falls on a
+                        # message boundary) and messages cut into pieces
+                        for rs in ((None, 64) if k < 5 else (64, 200)):
+                            c = {"level": "H", "ver": list(v), "dir": d,
+                                 "k": k, "auth": auth, "f": f, "rs": rs}
+                            if al:
+                                c["alert"] = al
+                            yield c
     tr = triples()
     for k, (sid, v, etm) in enumerate(tr):
         if iana.SUITES[sid].cipher == "3des" and tier == "quick" and k % 3:
